@@ -487,6 +487,7 @@ impl ProcCase {
             "compile" => "compile",
             "run" => "run",
             "runobj" => "runobj",
+            "debug" => "debug",
             _ => return None,
         };
         Some(ProcCase {
@@ -529,6 +530,9 @@ impl ProcCase {
         let mut args: Vec<String> = self.global_args();
         args.extend(match self.cmd {
             "runobj" => vec!["run".to_string(), "f.lc3".into(), "--minimal".into()],
+            // the debugger attached and detached at once: by C09 (`quit` hands the program over) the
+            // process behaves like `run`
+            "debug" => vec!["debug".to_string(), "f.asm".into(), "--minimal".into(), "--command".into(), "quit".into()],
             "check" => vec!["check".to_string(), "f.asm".into()],
             "compile" => vec!["compile".to_string(), "f.asm".into(), "out.lc3".into()],
             _ => vec!["run".to_string(), "f.asm".into(), "--minimal".into()],
@@ -602,7 +606,7 @@ const P_FLAGS: &[(char, &str)] = &[
     ('G', "stack,stack"),
 ];
 
-const P_CMDS: &[&str] = &["compile", "run", "check", "runobj"];
+const P_CMDS: &[&str] = &["compile", "run", "check", "runobj", "debug"];
 
 fn proc_cases(o: &crate::Opts) -> Vec<(&'static str, ProcCase)> {
     let mut v: Vec<(&'static str, ProcCase)> = Vec::new();
